@@ -15,7 +15,6 @@ import (
 	"strconv"
 
 	"verifharness/internal/hx"
-	"verifharness/internal/store"
 
 	"github.com/els0r/goProbe/v4/pkg/capture/capturetypes"
 	"github.com/els0r/goProbe/v4/pkg/goDB"
@@ -79,14 +78,14 @@ func nFlows(rng *hx.RNG, cls string) int {
 }
 
 // FlowsOf generates the flows of block id of a behaviour deterministically from (seed, id, class).
-func FlowsOf(seed uint64, id int, cls string) []store.Flow {
+func FlowsOf(seed uint64, id int, cls string) []Flow {
 	rng := hx.NewRNG(seed*6151 + uint64(id)*92821 + uint64(len(cls)))
 	n := nFlows(rng, cls)
 	servers := [][]byte{rng.Bytes(4), rng.Bytes(4), rng.Bytes(4)}
 	seen := map[string]bool{}
-	var fl []store.Flow
+	var fl []Flow
 	for len(fl) < n {
-		f := store.Flow{V4: rng.Intn(4) != 0}
+		f := Flow{V4: rng.Intn(4) != 0}
 		if f.V4 {
 			f.SIP, f.DIP = rng.Bytes(4), rng.Bytes(4)
 			if rng.Intn(2) == 0 {
@@ -143,7 +142,7 @@ func doWrite(j wjob) error {
 	if err != nil {
 		return err
 	}
-	ts := store.TS(j.ID)
+	ts := TS(j.ID)
 	if j.Mode == "raw" {
 		b := RawOf(j.Seed, j.ID, j.Cls)
 		w := gpfile.NewDirWriter(filepath.Join(j.DB, ixIface), ts, gpfile.WithEncoderTypeLevel(et, j.Level))
@@ -160,7 +159,7 @@ func doWrite(j wjob) error {
 	if j.Level > 0 {
 		w.EncoderLevel(j.Level)
 	}
-	return w.Write(store.FlowMap(fl), capturetypes.CaptureStats{Dropped: uint64(j.ID)}, ts)
+	return w.Write(FlowMap(fl), capturetypes.CaptureStats{Dropped: uint64(j.ID)}, ts)
 }
 
 func dayDir(db string) (names []string) {
@@ -216,7 +215,7 @@ func doObserve(j ojob) (res oresult) {
 			ok = make([]bool, len(j.Blocks))
 			return
 		}
-		d := gpfile.NewDirReader(filepath.Join(j.DB, ixIface), store.Day0, suffix)
+		d := gpfile.NewDirReader(filepath.Join(j.DB, ixIface), Day0, suffix)
 		if err := d.Open(); err != nil {
 			note("open for read: %v", err)
 			ok = make([]bool, len(j.Blocks))
@@ -233,8 +232,8 @@ func doObserve(j ojob) (res oresult) {
 				continue
 			}
 			id := bi + 1
-			if b.Timestamp != store.TS(id) {
-				note("block %d has timestamp %d, written %d", id, b.Timestamp, store.TS(id))
+			if b.Timestamp != TS(id) {
+				note("block %d has timestamp %d, written %d", id, b.Timestamp, TS(id))
 				ok[bi] = false
 			}
 			var want [types.ColIdxCount][]byte
@@ -245,8 +244,8 @@ func doObserve(j ojob) (res oresult) {
 				want, wantT, wantC = rb.data, rb.traffic, rb.counts
 			} else {
 				fl := FlowsOf(j.Seed, id, j.Blocks[bi])
-				want = store.Columns(store.FlowMap(fl))
-				t := store.TotalsFor(fl, id)
+				want = Columns(FlowMap(fl))
+				t := TotalsFor(fl)
 				wantT = gpfile.TrafficMetadata{NumV4Entries: uint64(t.V4), NumV6Entries: uint64(t.V6), NumDrops: uint64(id)}
 				wantC = t.C
 			}
@@ -296,8 +295,8 @@ func doObserve(j ojob) (res oresult) {
 	// ---- 2. query engine: time-resolved raw rows of the whole day
 	if j.Mode != "raw" {
 		p := hx.Catch(func() {
-			a := &query.Args{Query: "time,sip,dip,dport,proto", Ifaces: ixIface, First: strconv.FormatInt(store.Day0-86400, 10),
-				Last: strconv.FormatInt(store.Day0+2*86400, 10), Format: "json", NumResults: 100000000, MaxMemPct: 90}
+			a := &query.Args{Query: "time,sip,dip,dport,proto", Ifaces: ixIface, First: strconv.FormatInt(Day0-86400, 10),
+				Last: strconv.FormatInt(Day0+2*86400, 10), Format: "json", NumResults: 100000000, MaxMemPct: 90}
 			qr, err := engine.NewQueryRunner(j.DB).Run(context.Background(), a)
 			if err != nil {
 				note("query: %v", err)
@@ -321,8 +320,8 @@ func doObserve(j ojob) (res oresult) {
 			}
 			for bi := range j.Blocks {
 				id := bi + 1
-				rows := byTS[store.TS(id)]
-				delete(byTS, store.TS(id))
+				rows := byTS[TS(id)]
+				delete(byTS, TS(id))
 				sort.Slice(rows, func(a, b int) bool { return rows[a].key < rows[b].key })
 				want := map[string]types.Counters{}
 				for _, f := range FlowsOf(j.Seed, id, j.Blocks[bi]) {
